@@ -123,6 +123,11 @@ func runCheck(cfg checkCfg) int {
 	for _, e := range cs.Errors {
 		fmt.Println("CONTRACT ERROR:", e)
 	}
+	if len(cs.Errors) > 0 {
+		// a clause that does not parse would silently drop an obligation: nothing is reported as proved
+		writeEvidenceError(cfg, "contract files do not parse: "+strings.Join(cs.Errors, "; "), time.Since(t0).Seconds())
+		return 2
+	}
 	eng := NewEngine(prog, cs)
 	for _, w := range eng.Warnings {
 		fmt.Println("WARNING:", w)
